@@ -16,6 +16,7 @@ import (
 	"sort"
 	"strconv"
 	"strings"
+	"sync"
 	"time"
 
 	"verif/sim/props"
@@ -77,26 +78,26 @@ type ReplayFile struct {
 
 // WorkerSummary is what one worker reports.
 type WorkerSummary struct {
-	Runs      int            `json:"runs"`
-	SweepRuns int            `json:"sweep_runs"`
-	SweepTotal int           `json:"sweep_total"`
-	Ops       int            `json:"ops"`
-	Steps     int            `json:"steps"`
-	Switches  int            `json:"switches"`
-	SimTimeNs int64          `json:"sim_time_ns"`
-	Faults    map[string]int `json:"faults"`
-	Probes    map[string]int `json:"probes"`
-	Oracle    map[string]int `json:"oracle"`
-	Classes   []string       `json:"classes"`
-	Traces    []uint64       `json:"traces"`
-	Pairs     []string       `json:"pairs"`
-	Nontrivial int           `json:"nontrivial"`
-	Infra     int            `json:"infra"`
-	InfraMsgs []string       `json:"infra_msgs"`
-	Samples   []any          `json:"samples"`
-	Seeds     []uint64       `json:"seeds"`
+	Runs       int              `json:"runs"`
+	SweepRuns  int              `json:"sweep_runs"`
+	SweepTotal int              `json:"sweep_total"`
+	Ops        int              `json:"ops"`
+	Steps      int              `json:"steps"`
+	Switches   int              `json:"switches"`
+	SimTimeNs  int64            `json:"sim_time_ns"`
+	Faults     map[string]int   `json:"faults"`
+	Probes     map[string]int   `json:"probes"`
+	Oracle     map[string]int   `json:"oracle"`
+	Classes    []string         `json:"classes"`
+	Traces     []uint64         `json:"traces"`
+	Pairs      []string         `json:"pairs"`
+	Nontrivial int              `json:"nontrivial"`
+	Infra      int              `json:"infra"`
+	InfraMsgs  []string         `json:"infra_msgs"`
+	Samples    []any            `json:"samples"`
+	Seeds      []uint64         `json:"seeds"`
 	Violations []FoundViolation `json:"violations"`
-	WallS     float64        `json:"wall_s"`
+	WallS      float64          `json:"wall_s"`
 }
 
 // FoundViolation is a violation with its replay file.
@@ -167,6 +168,7 @@ func cmdWorker(args []string) int {
 	stride := fs.Int("stride", 1, "")
 	budget := fs.Duration("budget", 20*time.Second, "")
 	maxRuns := fs.Int("maxruns", 0, "")
+	startAt := fs.Int("start", 0, "")
 	outPath := fs.String("out", "", "")
 	verifDir := fs.String("verif", "/verif", "")
 	treeHash := fs.String("tree", "", "")
@@ -191,7 +193,7 @@ func cmdWorker(args []string) int {
 	sum.SweepTotal = len(sweep)
 	opts := props.Opts{Tier: *tier}
 	hardStop := start.Add(*budget * 4)
-	for i := *index; ; i += *stride {
+	for i := *startAt + *index; ; i += *stride {
 		isSweep := i < len(sweep)
 		if !isSweep && time.Since(start) > *budget {
 			break
@@ -519,23 +521,59 @@ func cmdCheck(args []string) int {
 		log string
 	}
 	results := make([]wres, n)
+	var mu sync.Mutex
 	done := make(chan int, n)
+	type round struct {
+		sum WorkerSummary
+		err error
+	}
+	var extra []WorkerSummary
 	for i := 0; i < n; i++ {
 		go func(i int) {
-			out := filepath.Join(tmp, fmt.Sprintf("w%d.json", i))
-			cmd := exec.Command(self, "worker", "-prop", p.ID, "-tier", *tier, "-seed", strconv.FormatUint(seed, 10),
-				"-index", strconv.Itoa(i), "-stride", strconv.Itoa(n), "-budget", budget.String(), "-out", out, "-verif", *verifDir, "-tree", *treeHash)
-			var sb strings.Builder
-			cmd.Stderr = &sb
-			cmd.Stdout = &sb
-			err := cmd.Run()
-			results[i].log = sb.String()
-			if err != nil {
-				results[i].err = fmt.Errorf("worker %d: %v\n%s", i, err, tail(sb.String(), 4000))
-			} else if b, rerr := os.ReadFile(out); rerr != nil {
-				results[i].err = rerr
-			} else if jerr := json.Unmarshal(b, &results[i].sum); jerr != nil {
-				results[i].err = jerr
+			deadline := start.Add(budget)
+			startAt := 0
+			for r := 0; ; r++ {
+				out := filepath.Join(tmp, fmt.Sprintf("w%d-%d.json", i, r))
+				left := time.Until(deadline)
+				if r > 0 && left < time.Second {
+					break
+				}
+				if r == 0 {
+					left = budget
+				}
+				args := []string{"worker", "-prop", p.ID, "-tier", *tier, "-seed", strconv.FormatUint(seed, 10),
+					"-index", strconv.Itoa(i), "-stride", strconv.Itoa(n), "-budget", left.String(), "-out", out, "-verif", *verifDir, "-tree", *treeHash,
+					"-start", strconv.Itoa(startAt)}
+				if p.Recycle > 0 {
+					args = append(args, "-maxruns", strconv.Itoa(p.Recycle))
+				}
+				cmd := exec.Command(self, args...)
+				var sb strings.Builder
+				cmd.Stderr = &sb
+				cmd.Stdout = &sb
+				err := cmd.Run()
+				var ws WorkerSummary
+				if err != nil {
+					results[i].err = fmt.Errorf("worker %d: %v\n%s", i, err, tail(sb.String(), 4000))
+					break
+				} else if b, rerr := os.ReadFile(out); rerr != nil {
+					results[i].err = rerr
+					break
+				} else if jerr := json.Unmarshal(b, &ws); jerr != nil {
+					results[i].err = jerr
+					break
+				}
+				if r == 0 {
+					results[i].sum = ws
+				} else {
+					mu.Lock()
+					extra = append(extra, ws)
+					mu.Unlock()
+				}
+				if p.Recycle == 0 || len(ws.Violations) > 0 && hasUnknown(ws.Violations) || ws.Runs < p.Recycle {
+					break
+				}
+				startAt += p.Recycle * n
 			}
 			done <- i
 		}(i)
@@ -551,13 +589,17 @@ func cmdCheck(args []string) int {
 	var viols []FoundViolation
 	crashed := 0
 	var crashMsgs []string
+	var sums []WorkerSummary
 	for _, r := range results {
 		if r.err != nil {
 			crashed++
 			crashMsgs = append(crashMsgs, r.err.Error())
 			continue
 		}
-		s := r.sum
+		sums = append(sums, r.sum)
+	}
+	sums = append(sums, extra...)
+	for _, s := range sums {
 		agg.Runs += s.Runs
 		agg.SweepRuns += s.SweepRuns
 		agg.SweepTotal = s.SweepTotal
@@ -741,4 +783,13 @@ func first64(a []uint64, n int) []uint64 {
 		return a[:n]
 	}
 	return a
+}
+
+func hasUnknown(vs []FoundViolation) bool {
+	for _, v := range vs {
+		if !v.Known {
+			return true
+		}
+	}
+	return false
 }
